@@ -53,8 +53,11 @@ def check(ctx):
     if ew is not None:
         w = [n for b in ctx.prog.family(ew) for n in V.W_REACHING(b)]
         ctx.check(not w, inst, "FORBID", ew.path, "dropping expired winners performs no device write itself (it only queues extents)", None)
+    check_winner(ctx, "C04.winner")
 
-    inst = "C04.winner"
+
+def check_winner(ctx, inst):
+    scan = ctx.fn("FeoxStore::scan_and_rebuild_indexes", inst)
     if scan is not None:
         # closure passed to is_some_and on the result of hash_table.read(..)
         isa = ctx.sites(scan, R.call("Option::is_some_and").filter(
